@@ -55,10 +55,24 @@ pub fn canon(m: &Message) -> Message {
 
 /// (A) a message the encoder accepts. Ok(Some(f1)) accepted and fine, Ok(None) refused by the encoder.
 pub fn oracle_a(m: &Message, tree: &Value) -> Result<Option<Vec<u8>>, (String, String)> {
+    oracle_a_with(m, tree, None)
+}
+
+/// `before`: the builder that encodes m was used once before for that message (the property quantifies over messages,
+/// not over fresh builders)
+pub fn oracle_a_with(m: &Message, tree: &Value, before: Option<&Message>) -> Result<Option<Vec<u8>>, (String, String)> {
     let name = registry::variant_name(m);
     let number = msggen::number_of_variant_name(name).unwrap_or(0);
     let r = catch(|| -> Result<Option<Vec<u8>>, (String, String)> {
-        let f1 = match build(m) {
+        let built = match before {
+            None => build(m),
+            Some(d) => {
+                let mut b = MessageBuilder::new();
+                let _ = b.build_message(d).map(|f| f.len());
+                b.build_message(m).map(|f| f.to_vec()).map_err(|e| format!("{:?}", e))
+            }
+        };
+        let f1 = match built {
             Ok(f) => f,
             Err(_) => return Ok(None),
         };
@@ -130,7 +144,7 @@ pub fn run(ctx: &Ctx, replay: Option<&J>) -> CheckResult {
     let rule = "(A) proptest recipes over all supported types (base = Default / decoded golden, generated or synthesised frame; up to 8 type-directed mutations: off-grid \
         and out-of-range values, NaN/inf, toggled options, permuted/duplicated/filled lists, arbitrary text and signal descriptors) for which build_message succeeds: \
         the frame decodes to the same variant, the decoded message re-encodes, byte-identically when the input satisfies the stated precondition (checked on the \
-        input), else decode(f2)==decode(f1). (B) frames from the decoder-side generators (golden, crate generator, structure-aware synthesiser, havoc) that decode \
+        input), else decode(f2)==decode(f1); each accepted recipe is checked a second time with the frame produced by a builder that was used once before (refused early / refused late / long frame). (B) frames from the decoder-side generators (golden, crate generator, structure-aware synthesiser, havoc) that decode \
         to a typed message accepted by the encoder: decode(encode(m)) == m up to the order of 1059/1065 satellite groups, encode(decode(encode(m))) == encode(m). \
         non-trivial: (A) accepted and >=1 mutation changed the tree, (B) typed decode of a frame not produced by build_message in this run; distinct = hash(number, frame)"
         .to_string();
@@ -148,8 +162,9 @@ pub fn run(ctx: &Ctx, replay: Option<&J>) -> CheckResult {
                 vs.push(Violation { property: "C01".into(), signature: sig, message: msg, case: c.clone() });
             }
         } else if let Some(tree) = c.get("value").and_then(Value::from_json) {
+            let before = c.get("builder_used_before_for").and_then(Value::from_json).and_then(|t| value_to_message(&t).ok());
             if let Ok(m) = value_to_message(&tree) {
-                if let Err((sig, msg)) = oracle_a(&m, &tree) {
+                if let Err((sig, msg)) = oracle_a_with(&m, &tree, before.as_ref()) {
                     vs.push(Violation { property: "C01".into(), signature: sig, message: msg, case: c.clone() });
                 }
             }
@@ -157,6 +172,8 @@ pub fn run(ctx: &Ctx, replay: Option<&J>) -> CheckResult {
         return CheckResult { evidence: ev, rule, assumptions, violations: vs };
     }
     let corp = corpus(ctx.seed);
+    let pool = crate::checks::c12::pool(ctx.seed);
+    let dist = crate::checks::c12::disturbers(ctx.seed);
     let cases = ctx.n(1_200_000, 30_000_000);
     let (mut ev, mut vs) = pt_run(
         ctx,
@@ -169,7 +186,13 @@ pub fn run(ctx: &Ctx, replay: Option<&J>) -> CheckResult {
                 Some(m) => m,
                 None => return Ok(()),
             };
-            let res = oracle_a(m, &b.tree);
+            let mut res = oracle_a(m, &b.tree);
+            if let Ok(Some(_)) = res {
+                let d = &pool[dist[(hash_str(&format!("{:?}", r.ops)) % dist.len() as u64) as usize]];
+                if let Err((sig, msg)) = oracle_a_with(m, &b.tree, Some(&d.msg)) {
+                    res = Err((format!("{}(builder-used-before)", sig), format!("builder used before for [{}]: {}", d.label, msg)));
+                }
+            }
             if let (Ok(out), Some(ev)) = (&res, ev) {
                 match out {
                     Some(f1) => {
@@ -198,7 +221,13 @@ pub fn run(ctx: &Ctx, replay: Option<&J>) -> CheckResult {
         },
         |r| {
             let b = run_recipe(corp, r, true);
-            json!({"kind":"message-value","number":b.number,"ops":b.classes.iter().map(|c| c.name()).collect::<Vec<_>>(),"value":b.tree.to_json()})
+            let d = &pool[dist[(hash_str(&format!("{:?}", r.ops)) % dist.len() as u64) as usize]];
+            let fresh_ok = b.message.as_ref().map(|m| oracle_a(m, &b.tree).is_ok()).unwrap_or(true);
+            if fresh_ok {
+                json!({"kind":"message-value","number":b.number,"ops":b.classes.iter().map(|c| c.name()).collect::<Vec<_>>(),"value":b.tree.to_json(),"builder_used_before_for":d.tree.to_json(),"before_label":d.label})
+            } else {
+                json!({"kind":"message-value","number":b.number,"ops":b.classes.iter().map(|c| c.name()).collect::<Vec<_>>(),"value":b.tree.to_json()})
+            }
         },
     );
     // (B)
